@@ -1415,7 +1415,37 @@ def op_envelope(M, ch, tr, st, started, top, top_sig, ops):
     for e in order:
         e.tkey = e.name + "_renamed" if e.name in renamed else e.name
     rename_dict = {n: n + "_renamed" for n in sorted(renamed)} if renamed else None
-    sig = (tuple(e.tkey for e in order), levels)
+    # layout of the top level: base-level events and/or groups of events, in any mix
+    # (a base event next to a group gives a tree of mixed depth)
+    if levels == 1:
+        layout = [("base", e.tkey, [e]) for e in order]
+    else:
+        shape = ch.weighted([3, 2, 2, 2], "tree_shape") if len(order) >= 2 else 0
+        cut = 1 + ch.draw(len(order) - 1, "cut")
+        if shape == 0:
+            layout = [("group", "G0", order[:cut]), ("group", "G1", order[cut:])]
+        elif shape == 1:
+            layout = [("base", e.tkey, [e]) for e in order[:cut]] + [("group", "G0", order[cut:])]
+        elif shape == 2:
+            layout = [("group", "G0", order[:cut])] + [("base", e.tkey, [e]) for e in order[cut:]]
+        else:
+            if len(order) >= 3:
+                layout = [("base", order[0].tkey, [order[0]]), ("group", "G0", order[1:-1]), ("base", order[-1].tkey, [order[-1]])]
+            else:
+                layout = [("base", order[0].tkey, [order[0]]), ("group", "G0", order[1:])]
+        if shape:
+            st.fault("mixed_depth_tree")
+    gmodes = {}
+    for kind_, key_, evs_ in layout:
+        if kind_ == "group":
+            # 0: assigned; 1: merged in after its own envelope was formed (named after it);
+            # 2: merged in without one (merge() names it after its members)
+            gmodes[key_] = ch.weighted([2, 1, 1], "group_mode") if use_merge else 0
+    layout = [
+        (k_, (", ".join(e.tkey for e in evs_) if k_ == "group" and gmodes[key_] == 2 else key_), evs_, gmodes.get(key_, 0))
+        for k_, key_, evs_ in layout
+    ]
+    sig = (tuple((k_, key_, tuple(e.tkey for e in evs_)) for k_, key_, evs_, _ in layout), levels)
     # build (or reuse) the tree
     if top is not None and top_sig == sig:
         st.fault("stale_extreme_rebuild")
@@ -1423,31 +1453,39 @@ def op_envelope(M, ch, tr, st, started, top, top_sig, ops):
     else:
         tree = cla.DR_Results()
         with _Sut("DR_Results.merge"):
-            if levels == 1:
-                if use_merge:
-                    got = tree.merge([e.res for e in order], rename_dict)
-                    if got != [e.tkey for e in order]:
-                        raise Violation("merge_names_wrong", "DR_Results.merge", got=got, expected=[e.tkey for e in order])
-                else:
-                    for e in order:
-                        tree[e.tkey] = e.res
+            if levels == 1 and use_merge:
+                got = tree.merge([e.res for e in order], rename_dict)
+                if got != [e.tkey for e in order]:
+                    raise Violation("merge_names_wrong", "DR_Results.merge", got=got, expected=[e.tkey for e in order])
             else:
-                cut = 1 + ch.draw(len(order) - 1, "cut")
-                for gname, grp in (("G0", order[:cut]), ("G1", order[cut:])):
+                for kind_, key_, evs_, gm in layout:
+                    if kind_ == "base":
+                        if use_merge:
+                            tree.merge([evs_[0].res], rename_dict)
+                        else:
+                            tree[key_] = evs_[0].res
+                        continue
                     g = cla.DR_Results()
                     if use_merge:
-                        g.merge((e.res for e in grp), rename_dict)  # any iterable will do
+                        g.merge((e.res for e in evs_), rename_dict)  # any iterable will do
                     else:
-                        for e in grp:
+                        for e in evs_:
                             g[e.tkey] = e.res
-                    tree[gname] = g
-        if list(k for k in tree if k != "extreme") != ([e.tkey for e in order] if levels == 1 else ["G0", "G1"]):
-            raise Violation("merge_names_wrong", "DR_Results.merge", got=list(tree), expected=[e.tkey for e in order])
-    groups = None
-    if levels == 2:
-        groups = {g: [e for e in order if e.tkey in tree[g]] for g in ("G0", "G1")}
+                    if gm == 0:
+                        tree[key_] = g
+                    else:
+                        if gm == 1:
+                            g.form_extreme(ext_name=key_, doappend=doappend)
+                        got = tree.merge([g])
+                        if got != [key_]:
+                            raise Violation("merge_names_wrong", "DR_Results.merge(group)", got=got, expected=[key_], group_has_extreme=gm == 1)
+                        st.fault("merge_of_merged_results")
+        if list(k for k in tree if k != "extreme") != [key_ for _, key_, _, _ in layout]:
+            raise Violation("merge_names_wrong", "DR_Results.merge", got=list(tree), expected=[key_ for _, key_, _, _ in layout])
+    groups = {key_: evs_ for kind_, key_, evs_, _ in layout if kind_ == "group"}
+    members = {key_: evs_ for _, key_, evs_, _ in layout}
     case_order = None
-    top_keys = [e.tkey for e in order] if levels == 1 else ["G0", "G1"]
+    top_keys = [key_ for _, key_, _, _ in layout]
     if with_case_order:
         case_order = [top_keys[i] for i in ch.perm(len(top_keys), "case_order_perm")]
         if len(case_order) > 1 and ch.flip(1, 3, "case_order_subset"):
@@ -1455,24 +1493,24 @@ def op_envelope(M, ch, tr, st, started, top, top_sig, ops):
     with _Sut("DR_Results.form_extreme"):
         tree.form_extreme(ext_name="ENV", case_order=case_order, doappend=doappend)
     used_keys = case_order if case_order is not None else top_keys
-    ops.append(f"envelope {[e.tkey for e in order]} levels={levels} doappend={doappend} case_order={case_order} reuse={tree is top}")
-    tr.shape("envelope", [e.idx for e in order], levels, doappend, case_order, tree is top, sorted(renamed))
+    ops.append(f"envelope {[(k_[0], key_, [e.tkey for e in evs_]) for k_, key_, evs_, _ in layout]} doappend={doappend} case_order={case_order} reuse={tree is top}")
+    tr.shape("envelope", [(k_, [e.idx for e in evs_], gm) for k_, key_, evs_, gm in layout], doappend, case_order, tree is top, sorted(renamed))
     if len(order) >= 2:
         st.fault("envelope_multi_event")
 
     def contributors(key):
-        if levels == 1:
-            return [e for e in order if e.tkey == key]
-        return groups[key]
+        return members[key]
 
+    lv = frozenset(groups) if groups else 1  # which top-level keys are groups (label format differs)
     # top-level envelope over the keys used
     top_events = [e for k in used_keys for e in contributors(k)]
-    check_envelope(M, st, tree["extreme"], used_keys, {k: contributors(k) for k in used_keys}, doappend, levels, "top", "ENV")
-    if levels == 2:
-        for g in ("G0", "G1"):
-            keys = [e.tkey for e in groups[g]]
-            check_envelope(M, st, tree[g]["extreme"], keys, {e.tkey: [e] for e in groups[g]}, doappend, 1, "group", g)
+    check_envelope(M, st, tree["extreme"], used_keys, {k: contributors(k) for k in used_keys}, doappend, lv, "top", "ENV")
+    for g in groups:
+        keys = [e.tkey for e in groups[g]]
+        if "extreme" not in tree[g]:
+            raise Violation("envelope_missing_cat", f"form_extreme[group]:{g}", reason="no 'extreme' entry at the group level")
         # stale entries must have been replaced, not accumulated
+        check_envelope(M, st, tree[g]["extreme"], keys, {e.tkey: [e] for e in groups[g]}, doappend, 1, "group", g)
     if ch.flip(1, 4, "summary_copy"):
         # the documented summary workflow: save the merged structure, load it
         # elsewhere, strip the histories, re-form the envelope there
@@ -1489,7 +1527,7 @@ def op_envelope(M, ch, tr, st, started, top, top_sig, ops):
         st.fault("summary_copy_stripped" if strip else "summary_copy")
         ops.append(f"  summary copy via save/load, strip_hists={strip}, form_extreme again")
         tr.shape("summary_copy", strip)
-        check_envelope(M, st, cp["extreme"], used_keys, {k: contributors(k) for k in used_keys}, doappend, levels, "summary-copy", "ENV", stripped=strip)
+        check_envelope(M, st, cp["extreme"], used_keys, {k: contributors(k) for k in used_keys}, doappend, lv, "summary-copy", "ENV", stripped=strip)
     # forming envelopes must leave the events' own tables alone
     for e in order:
         check_event(M, st, e, tr)
@@ -1497,8 +1535,9 @@ def op_envelope(M, ch, tr, st, started, top, top_sig, ops):
 
 
 def _labels_for(doappend, levels, which, key, ev, case_label):
-    """Acceptable maxcase/mincase text for a contributor, per the docstring table."""
-    if which == "group" or levels == 1:
+    """Acceptable maxcase/mincase text for a contributor, per the docstring table.
+    `levels`: 1 (all keys are base-level events) or the set of keys that are groups."""
+    if which == "group" or levels == 1 or (not isinstance(levels, int) and key not in levels):
         # one level above the base events
         return {0: key, 1: f"{key},{case_label}", 2: key, 3: case_label}[doappend]
     # top of a two-level tree: key is the group, below it the event
@@ -1756,5 +1795,5 @@ ASSUMPTIONS = [
 EXPECTED_FAULTS = [
     "psd_domain", "clock_jump_backwards", "clock_jump_forwards", "external_maxmin", "merge_rename", "mixed_abscissa", "model_varies_between_events", "zero_force_psd_row", "nan_cells", "ties", "ties_quantised", "one_column_ext", "label_mismatch", "j_out_of_order", "interleaved_events", "view_drfunc",
     "cache_reuse", "cache_reuse_repeat_uf", "stale_extreme_rebuild", "shared_DR_Event", "envelope_multi_event", "split_merge", "calc_ext",
-    "force_trimming", "checkpoint_saved", "crash_restart_from_checkpoint", "crash_restart_from_scratch", "crash_lost_cases_redone", "summary_copy", "summary_copy_stripped",
+    "mixed_depth_tree", "merge_of_merged_results", "force_trimming", "checkpoint_saved", "crash_restart_from_checkpoint", "crash_restart_from_scratch", "crash_lost_cases_redone", "summary_copy", "summary_copy_stripped",
 ]
